@@ -188,9 +188,14 @@ def run_history(rig, ops, irc=None):
     """execute one history on the real driver; returns (per-op dumps, observations)"""
     d, stub, fs, st = rig.fresh(irc)
     outs = []
-    obs = {'removed_with_unsent': False, 'prefix_ok': True, 'queued': [], 'disconnected': False}
+    obs = {'queued': [], 'must_be_drained': False}
     for op in ops:
         k = op[0]
+        # a loop pass that starts with nothing scripted sends everything; later q/ss ops void that
+        if k == 'loop':
+            obs['must_be_drained'] = not fs.script and not fs.recvs
+        elif k in ('q', 'ss', 'sr'):
+            obs['must_be_drained'] = False
         if k == 'q':
             if not stub.zombie:
                 obs['queued'].append(op[1])
@@ -363,12 +368,26 @@ def oracle_write(ops, obs):
     if obs['removed'] and sent != want and benign_script(script) and not hostile:
         return False, ('the driver was removed from the loop with %d byte(s) of taken messages never written '
                        '(socket got %r, messages were %r)' % (len(want) - len(sent), sent[-30:], want[-40:])), 'C11-zombie-flush'
-    if benign_script(script) and not hostile and not obs['removed'] and not obs['script_left']:
+    if benign_script(script) and not hostile and not obs['removed']:
         if not obs['connected']:
             return False, 'driver disconnected although the socket only reported short writes / tolerable EAGAIN bursts', None
-        if sent != want or obs['left']:
-            return False, 'after the schedule was exhausted the socket has %d of %d bytes, %d message(s) still queued' % (len(sent), len(want), obs['left']), None
+        if obs['must_be_drained'] and (sent != want or obs['left']):
+            return False, 'after a loop pass with no fault scripted the socket has %d of %d bytes, %d message(s) still queued' % (len(sent), len(want), obs['left']), None
     return True, '', None
+
+def reference_messages(rig, data):
+    """the messages of a byte stream, by the IRC framing rule (lines end with LF; surrounding blanks/CR
+    dropped; empty and malformed lines skipped) — written independently of the driver"""
+    out = []
+    for line in data.split(b'\n')[:-1]:
+        s = line.decode('utf-8', 'replace').strip()
+        if not s:
+            continue
+        try:
+            out.append(enc_msg(rig.ircmsgs.IrcMsg(s)))
+        except rig.ircmsgs.MalformedIrcMsg:
+            pass
+    return out
 
 def oracle_read(rig, r, stream_ops, obs):
     """messages delivered = those of the unsplit stream"""
@@ -377,6 +396,10 @@ def oracle_read(rig, r, stream_ops, obs):
     if obs['fed'] != ref['fed']:
         return False, 'delivered %d message(s) %r but the same bytes in one recv() deliver %d: %r' % (
             len(obs['fed']), obs['fed'][:3], len(ref['fed']), ref['fed'][:3])
+    want = reference_messages(rig, data)
+    if obs['fed'] != want:
+        return False, 'delivered %d message(s) %r but the LF-terminated lines of the stream %r are %d message(s): %r' % (
+            len(obs['fed']), obs['fed'][:3], data[:80], len(want), want[:3])
     return True, ''
 
 def case_tags(ops, outs, obs):
